@@ -6,8 +6,18 @@ import json
 import posixpath as pp
 
 
+_MID = [0]
+
+
+def new_mid():
+    """Fresh "metadata identity" (stands for size + mtime) of a regular file."""
+    _MID[0] += 1
+    return _MID[0]
+
+
 class VFS:
-    """In-memory tree below a root: abs path -> ('f', bytes) | ('d',)."""
+    """In-memory tree below a root: abs path -> ('f', bytes, mid) | ('d',).
+    mid changes whenever size or mtime of the file change."""
 
     def __init__(self, root, t=None):
         self.root = root
@@ -38,7 +48,13 @@ class VFS:
     def write(self, p, data):
         assert self.kind(pp.dirname(p)) == 'd', p
         assert self.kind(p) != 'd', p
-        self.t[p] = ('f', data)
+        self.t[p] = ('f', data, new_mid())
+
+    def touch(self, p):
+        self.t[p] = ('f', self.t[p][1], new_mid())
+
+    def write_keep_meta(self, p, data):
+        self.t[p] = ('f', data, self.t[p][2])
 
     def mkdir(self, p):
         assert self.kind(pp.dirname(p)) == 'd', p
@@ -66,6 +82,7 @@ class RefState:
         self.fs = VFS(root)
         self.cache = cache
         self.rec = None     # dict(outputs=set, created=set, versions=dict)
+        self.last_trace = None
 
     def sync(self):
         """After an external mutation: no cache file => no record."""
@@ -116,6 +133,9 @@ class RefRun:
         self.stampc = 0
         self.stamps = {}            # path -> logical stamp of outputs
         self.mask = None            # names at the root that are not observed
+        # trace tree of this from-scratch run (effectiveness oracle)
+        self.trace = {'kind': 'root', 'ops': []}
+        self.cur = [self.trace]
         # directories needed for the cache file
         d = pp.dirname(st.cache)
         mk = []
@@ -142,7 +162,16 @@ class RefRun:
         pre = d.rstrip('/') + '/'
         return [n for n in self.fs.children(d) if self.vkind(pre + n) is not None]
 
-    def query(self, kind, p):
+    def query(self, kind, p, cmp='METADATA'):
+        a = self._query(kind, p)
+        op = {'op': 'q', 'kind': kind, 'p': p, 'cmp': 'HASH' if kind == 'readh' else cmp, 'a': a}
+        if kind in ('read', 'readh') and self.vkind(p) == 'f':
+            e = self.fs.t[p]
+            op['file'] = {'mid': e[2], 'output': p in self.outputs}
+        self.cur[-1]['ops'].append(op)
+        return a
+
+    def _query(self, kind, p):
         """Answer in normalised JSON form; OSError classes as strings '!Name'."""
         kd = self.vkind(p)
         if kind == 'exists':
@@ -183,8 +212,19 @@ class RefRun:
         raise ValueError(kind)
 
     # -- complex operations -------------------------------------------------
-    def build_file(self, p, body):
+    def build_file(self, p, body, key=None):
         """body() -> (written bytes or None, return value); may raise."""
+        node = {'kind': 'bf', 'p': p, 'key': key, 'ops': [], 'outcome': 'setup_failed'}
+        self.cur[-1]['ops'].append(node)
+        self.cur.append(node)
+        try:
+            rv = self._build_file(p, body, node)
+            node['outcome'] = 'ok'
+            return rv
+        finally:
+            self.cur.pop()
+
+    def _build_file(self, p, body, node):
         self.passed.add(p)
         if p in self.attempted:
             raise RuntimeError('same file twice')
@@ -214,8 +254,10 @@ class RefRun:
             self.created.add(d)
         if p in self.fs.t:
             self.fs.rmtree(p)          # a foreign file here is dropped
+            node['displaced'] = True
         self.attempted.add(p)
         self.inprog.append(p)
+        node['outcome'] = 'raised'
         try:
             w, rv = body()
             rv = jround_checked(rv)
@@ -227,7 +269,7 @@ class RefRun:
             self._gc(pp.dirname(p))
             raise
         self.inprog.remove(p)
-        self.fs.t[p] = ('f', w)
+        self.fs.t[p] = ('f', w, new_mid())
         self.outputs.add(p)
         self.stampc += 1
         self.stamps[p] = self.stampc
@@ -245,15 +287,25 @@ class RefRun:
             d = pp.dirname(d)
 
     def subbuild(self, key, body):
-        if key in self.subkeys:
-            raise RuntimeError('same subbuild twice')
-        self.subkeys.add(key)
-        return jround_checked(body())
+        node = {'kind': 'sb', 'p': None, 'key': key, 'ops': [], 'outcome': 'setup_failed'}
+        self.cur[-1]['ops'].append(node)
+        self.cur.append(node)
+        try:
+            if key in self.subkeys:
+                raise RuntimeError('same subbuild twice')
+            self.subkeys.add(key)
+            node['outcome'] = 'raised'
+            rv = jround_checked(body())
+            node['outcome'] = 'ok'
+            return rv
+        finally:
+            self.cur.pop()
 
     def commit(self):
         st = self.st
         st.fs = self.fs
-        st.fs.t[st.cache] = ('f', b'<cache>')
+        st.fs.t[st.cache] = ('f', b'<cache>', 0)
+        st.last_trace = self.trace
         st.rec = dict(outputs=set(self.outputs), created=set(self.created),
                       versions=dict(self.versions))
 
